@@ -68,10 +68,10 @@ def demoEv (g : List Int) : List Int := [g.foldl (· + ·) 0]
 /-- three individuals; #0 pre-evaluated (truthfully: 1+2+3 = 6), #1 and #2 not evaluated -/
 def demoHeap : Heap := fun o =>
   match o with
-  | 0 => ⟨[1, 2, 3], some [6]⟩
-  | 1 => ⟨[4, 5, 6], none⟩
-  | 2 => ⟨[7, 8, 9], none⟩
-  | _ => ⟨[], none⟩
+  | 0 => ⟨[1, 2, 3], some [6], none⟩
+  | 1 => ⟨[4, 5, 6], none, none⟩
+  | 2 => ⟨[7, 8, 9], none, none⟩
+  | _ => ⟨[], none, none⟩
 
 def demoState : LState := { st := { heap := demoHeap, next := 3 }, pop := [0, 1, 2] }
 
@@ -474,8 +474,8 @@ theorem eaGenerateUpdate_correct (gens : List (List (Nat × Obj) × List Nat)) (
 /-- two generations of an ask/tell strategy with two PERSISTENT individuals: in generation 1 `generate`
 hands back the same objects, moved, still carrying their (now stale) fitness — they are evaluated again -/
 def demoGU := eaGenerateUpdate (σ := Unit) demoEv
-  [([(0, ⟨[1, 2], none⟩), (1, ⟨[3], none⟩)], [1, 0]),
-   ([(1, ⟨[5, 5], some [3]⟩), (0, ⟨[0], some [3]⟩)], [0, 1])] () { heap := fun _ => ⟨[], none⟩, next := 0 }
+  [([(0, ⟨[1, 2], none, none⟩), (1, ⟨[3], none, none⟩)], [1, 0]),
+   ([(1, ⟨[5, 5], some [3], none⟩), (0, ⟨[0], some [3], none⟩)], [0, 1])] () { heap := fun _ => ⟨[], none, none⟩, next := 0 }
 
 example : demoGU.map (fun r => (r.2.pop, r.2.log, r.2.evals)) =
     some ([1, 0], [(0, 2), (1, 2)], [(0, 0), (0, 1), (1, 1), (1, 0)]) := by decide
@@ -526,7 +526,7 @@ example : OpContract C02.demoOps ∧ (0 < 2) ∧ Init demoEv demoState ∧ demoP
 
 /-- The truncation selection is `sorted(…, reverse=True)[:k]`: with fitnesses 6, 15, 15, 24 for the oids
 0, 1, 2, 3 the three best of `[0, 1, 2, 3]` are 3, 1, 2 — ties keep their original order. -/
-def demoFitHeap : Heap := fun o => ⟨[], some [[6, 15, 15, 24].getD o 0]⟩
+def demoFitHeap : Heap := fun o => ⟨[], some [[6, 15, 15, 24].getD o 0], none⟩
 example : selBest demoFitHeap [0, 1, 2, 3] 3 = [3, 1, 2] := by
   simp +decide [selBest, List.mergeSort, List.MergeSort.Internal.splitInTwo, fitKey, demoFitHeap]
 
@@ -696,8 +696,8 @@ theorem hof_best_ge_logged_gu {m base : Nat} (hm : 1 ≤ m) (gens : List (List (
 
 /-- two generations of an ask/tell strategy (as `demoGU`) with a `HallOfFame(1)` -/
 def demoGUC := eaGenerateUpdateC (σ := Unit) demoEv
-  [([(0, ⟨[1, 2], none⟩), (1, ⟨[3], none⟩)], [1, 0]),
-   ([(1, ⟨[5, 5], some [3]⟩), (0, ⟨[0], some [3]⟩)], [0, 1])] () { heap := fun _ => ⟨[], none⟩, next := 0 } 1 100
+  [([(0, ⟨[1, 2], none, none⟩), (1, ⟨[3], none, none⟩)], [1, 0]),
+   ([(1, ⟨[5, 5], some [3], none⟩), (0, ⟨[0], some [3], none⟩)], [0, 1])] () { heap := fun _ => ⟨[], none, none⟩, next := 0 } 1 100
 
 example : (1 ≤ 1) ∧ demoGUC.isSome = true := ⟨by decide, by decide +kernel⟩
 example : demoGUC.map (fun r => (r.2.ls.pop, r.2.hof.items.map (fun i => (i.genome, i.fit.wvalues)))) =
